@@ -313,7 +313,12 @@ Definition hops_alias : list hop :=
    HWriteDf 0 [K 500 1 4]; HRead RkNp; HRemove [0%Z]; HWrite (HArg 0) [[7;7;7];[7;7;7]]].
 Definition adopting : heapparams :=
   {| hp_add := AddAdopt; hp_writes_arg := false; hp_array_exposes := true; hp_np_exposes := true;
-     hp_xr_copies := true; hp_df_adopts := false; hp_binds_param := false |}.
+     hp_xr_copies := true; hp_df_adopts := false; hp_binds_param := false;
+     hp_reset_fresh := true; hp_remove_fresh := true; hp_rebuild_fresh := true |}.
+Definition in_place : heapparams :=
+  {| hp_add := AddInPlace; hp_writes_arg := false; hp_array_exposes := true; hp_np_exposes := true;
+     hp_xr_copies := true; hp_df_adopts := false; hp_binds_param := false;
+     hp_reset_fresh := false; hp_remove_fresh := false; hp_rebuild_fresh := false |}.
 (* non-vacuity: a sequence that re-adds one object, overwrites it between and after the additions, scribbles over a
    to_xarray result and over an added DataFrame is disciplined and reads the by-value sums; the hypothesis is not
    trivially true (a container binding `self._array` to its argument is rejected) and it is needed: with such a
@@ -334,7 +339,12 @@ Example C14_heap_nonvacuous :
   option_map (xr_view) (hexec hsrc src g11 (Some (hinit g11))
      [HNew [[1]]; HAdd (HArg 0); HRead RkXr; HAdd (HArg 0); HReset; HWrite (HArg 0) [[9]]; HCl [K 2 (1#2) (1#2)]; HRead RkXr])
     = Some [[[1]]; [[2]]] /\
-  writes_result (HWrite (HRes 0) [[5]]) = true /\ writes_result (HAdd (HArg 0)) = false.
+  writes_result (HWrite (HRes 0) [[5]]) = true /\ writes_result (HAdd (HArg 0)) = false /\
+  (* a container that zeroes / rebuilds its array in place is accepted too, and differs only in what an old `.array`
+     view shows: written after a reset, the view still is the stored array *)
+  hparams_ok in_place /\
+  hread_after in_place src g11 [HRead RkArray; HReset; HWrite (HRes 0) [[5]]] = OArr [[5]] /\
+  hread_after hsrc src g11 [HRead RkArray; HReset; HWrite (HRes 0) [[5]]] = OArr [[0]].
 Proof.
   repeat match goal with |- _ /\ _ => split end; try (vm_compute; reflexivity); try exact std_hparams_ok.
   intros [Hn _]. apply Hn. reflexivity.
